@@ -499,6 +499,18 @@ def fixed_corpus():
                        [L('regex', '[0-9]+' + cls(chunk[0])), L('regex', '[0-9]+', prio=1), L('skip', '~+')], origin='fixed:pair-classes%d' % (part // 9)))
         out.append(Def([L('regex', '%s%s+;' % (lead[i], cls(p))) for i, p in enumerate(chunk[:5])], origin='fixed:pair-loops%d' % (part // 9)))
     out.append(Def([L('regex', '(?-u)x[\\x41\\xc1]'), L('regex', '(?-u)y[\\x7f\\xff]'), L('regex', '(?-u)z[\\x00\\x80]+!'), L('regex', '(?-u)w[\\x5a\\xda]')], utf8=False, origin='fixed:pair-classes-bytes'))
+    # round 27: byte classes that end one short of 0xff / begin one after 0x00 (a complement computed with an off-by-one at the
+    # limits drops the extreme byte), as self loops with the extreme byte a token of its own
+    out.append(Def([L('regex', '(?-u)[\\xa1-\\xfe]+'), L('regex', '(?-u)[\\x01-\\x20]+'), L('token', bytes([0xff]), is_bytes=True),
+                    L('token', bytes([0x00]), is_bytes=True), L('regex', '[a-z]+')], utf8=False, origin='fixed:edge-adjacent'))
+    out.append(Def([L('regex', '(?-u)[^\\xff]+'), L('token', bytes([0xff]), is_bytes=True)], utf8=False, origin='fixed:edge-adjacent2'))
+    out.append(Def([L('regex', '(?-u)[^\\x00]+'), L('token', bytes([0x00]), is_bytes=True)], utf8=False, origin='fixed:edge-adjacent3'))
+    # round 27: counted repetitions over classes holding multi-byte characters (the count is in characters, not bytes)
+    out.append(Def([L('regex', '[^ ]{3,}'), L('skip', ' +')], origin='fixed:counted-open'))
+    out.append(Def([L('regex', '[^a-z ]{2}x'), L('regex', '(?:[^ ,]+,){2}'), L('regex', '[a-z]+'), L('skip', ' ')], origin='fixed:counted-open2'))
+    # round 27: a look-ahead in the middle whose late accept has only an end-of-input edge to an accept of the same leaf
+    out.append(Def([L('regex', 'a(?-u:\\b)( $)?'), L('regex', '[b-z]+'), L('token', ' ', prio=1)], origin='fixed:look-opt-eoi'))
+    out.append(Def([L('regex', 'x|y$'), L('regex', 'yz+'), L('skip', ' ')], origin='fixed:look-opt-eoi2'))
     # nested repetitions (exponential for backtrackers)
     out.append(Def([L('regex', '(a+)+b'), L('regex', '(a|aa)+c'), L('regex', '(a*)*d')], origin='fixed:nested'))
     FIXED.extend(out)
